@@ -248,10 +248,13 @@ func (h *VerifHandledJob) Token() string {
 	}
 	return st.ContinuationToken
 }
+
+// Idle reports whether no run of THIS job id holds a slot.
 func (h *VerifHandledJob) Idle() bool {
 	h.s.Runner.raffle.runningMu.Lock()
 	defer h.s.Runner.raffle.runningMu.Unlock()
-	return len(h.s.Runner.raffle.runningJobs) == 0
+	_, busy := h.s.Runner.raffle.runningJobs[h.j.id]
+	return !busy
 }
 
 // ---- C11: probes, triggered jobs as the scheduler builds them, slot state ----
